@@ -102,9 +102,10 @@ class _Simplify(ast.NodeTransformer):
             op, l, r = node.ops[0], node.left, node.comparators[0]
             if isinstance(op, (ast.In, ast.NotIn)) and isinstance(r, ast.List):
                 node.comparators = [ast.Tuple(r.elts, ast.Load())]
-            if type(op) in _MIRROR and _pure(l) and _pure(r):
+            swappable = (_pure(l) and _pure(r)) or isinstance(l, ast.Constant) or isinstance(r, ast.Constant)  # a literal has no evaluation to reorder
+            if type(op) in _MIRROR and swappable:
                 return ast.Compare(r, [_MIRROR[type(op)]()], [l])
-            if isinstance(op, (ast.Eq, ast.NotEq)) and _pure(l) and _pure(r):
+            if isinstance(op, (ast.Eq, ast.NotEq)) and swappable:
                 lc, rc = isinstance(l, ast.Constant), isinstance(r, ast.Constant)
                 if (lc and not rc) or (lc == rc and _shape(l) > _shape(r)):
                     return ast.Compare(r, [op], [l])
@@ -221,8 +222,9 @@ def _evaluated_before(root: ast.expr, target: ast.Name) -> list[ast.AST] | None:
     return before if found else None
 
 
-def _inline_temps(fn: ast.FunctionDef) -> None:
-    """step 4, to a fixed point"""
+def _inline_temps(fn: ast.FunctionDef, only: set[str] | None = None, keep: set[str] | None = None) -> int:
+    """step 4, to a fixed point.  only / keep: restrict to these names / leave these names alone.  Returns the number substituted."""
+    done = 0
     params = {a.arg for a in fn.args.args + fn.args.kwonlyargs + fn.args.posonlyargs} | ({fn.args.vararg.arg} if fn.args.vararg else set()) | ({fn.args.kwarg.arg} if fn.args.kwarg else set())
     for _ in range(20):
         stores: dict[str, int] = {}
@@ -251,7 +253,7 @@ def _inline_temps(fn: ast.FunctionDef) -> None:
                 st, nxt = block[i], block[i + 1]
                 if isinstance(st, ast.Assign) and len(st.targets) == 1 and isinstance(st.targets[0], ast.Name):
                     x = st.targets[0].id
-                    if x not in banned and stores.get(x) == 1 and loads.get(x) == 1:
+                    if x not in banned and stores.get(x) == 1 and loads.get(x) == 1 and (only is None or x in only) and (keep is None or x not in keep):
                         for he in _header_exprs(nxt):
                             uses = [n for n in ast.walk(he) if isinstance(n, ast.Name) and n.id == x and isinstance(n.ctx, ast.Load)]
                             if len(uses) == 1:
@@ -279,6 +281,8 @@ def _inline_temps(fn: ast.FunctionDef) -> None:
         visit_block(fn.body)
         if not changed:
             break
+        done += 1
+    return done
 
 
 def _replace(root: ast.AST, target: ast.AST, new: ast.AST) -> None:
@@ -381,3 +385,225 @@ def signatures_of(trees: dict[str, ast.Module]) -> dict[str, list[str]]:
                 ok = bool(init) and not init[0].args.vararg and not init[0].args.posonlyargs
                 defs.setdefault(st.name, []).append([a.arg for a in init[0].args.args[1:]] if ok else None)
     return {k: v[0] for k, v in defs.items() if len(v) == 1 and v[0]}
+
+
+# --------------------------------------------------------------------------- a changed function: undo the syntactic noise around the change
+def _u(node: ast.AST) -> str:
+    return ast.unparse(ast.fix_missing_locations(node))
+
+
+def _locals_of(fn: ast.FunctionDef) -> set[str]:
+    out = {n.id for n in ast.walk(fn) if isinstance(n, ast.Name) and isinstance(n.ctx, ast.Store)}
+    out |= {n.name for n in ast.walk(fn) if isinstance(n, ast.ExceptHandler) and n.name}
+    return out
+
+
+def _params_of(fn: ast.FunctionDef) -> set[str]:
+    a = fn.args
+    return {x.arg for x in a.args + a.kwonlyargs + a.posonlyargs} | ({a.vararg.arg} if a.vararg else set()) | ({a.kwarg.arg} if a.kwarg else set())
+
+
+def inline_new_temps(fn: ast.FunctionDef, ref: ast.FunctionDef) -> int:
+    new_names = _locals_of(fn) - _locals_of(ref) - _params_of(fn)
+    return _inline_temps(fn, only=new_names) if new_names else 0
+
+
+def toward_reference(fn: ast.FunctionDef, ref: ast.FunctionDef, signatures: dict[str, list[str]]) -> list[str]:
+    """A known function that really changed (its canonical form differs from the reference's).  The parts the change did not touch may still
+    be spelled differently; each rewrite below is one of the canonical steps, applied in place and only in the direction of the reference
+    spelling (decided by what the reference function contains), so that the rules meet the change itself and not the noise around it.
+    Returns a description of what was rewritten."""
+    notes: list[str] = []
+    ref_ifs: dict[str, list[ast.If]] = {}
+    for n in ast.walk(ref):
+        if isinstance(n, ast.If):
+            ref_ifs.setdefault(ast.unparse(n.test), []).append(n)
+    ref_text = {ast.unparse(n) for n in ast.walk(ref) if isinstance(n, (ast.Compare, ast.AugAssign, ast.Assign))}
+    ref_kw = {(n.func.id, k.arg) for n in ast.walk(ref) if isinstance(n, ast.Call) and isinstance(n.func, ast.Name) for k in n.keywords}
+    # -- renamed locals: a new name takes the reference name under which most of its statements read as reference statements
+    mine, theirs = _locals_of(fn) - _params_of(fn), _locals_of(ref) - _params_of(ref)
+    added, gone = sorted(mine - theirs), sorted(theirs - mine)
+    if added and gone:
+        import re as _re
+
+        def pieces(f: ast.FunctionDef) -> list[str]:
+            out = []
+            for n in ast.walk(f):
+                if isinstance(n, (ast.Assign, ast.AugAssign, ast.Expr, ast.Return, ast.Raise)):
+                    out.append(ast.unparse(n))
+                elif isinstance(n, (ast.If, ast.While)):
+                    out.append(ast.unparse(n.test))
+                elif isinstance(n, ast.For):
+                    out.append(ast.unparse(n.target) + " in " + ast.unparse(n.iter))
+            return out
+
+        ref_pieces = set(pieces(ref))
+        used = {n.id for n in ast.walk(fn) if isinstance(n, ast.Name)}
+        for a_ in added:
+            mine_p = [p_ for p_ in pieces(fn) if _re.search(rf"\b{_re.escape(a_)}\b", p_)]
+            score = {g_: sum(1 for p_ in mine_p if _re.sub(rf"\b{_re.escape(a_)}\b", g_, p_) in ref_pieces) for g_ in gone if g_ not in used}
+            best = sorted(score.items(), key=lambda kv: -kv[1])
+            if best and best[0][1] > 0 and (len(best) == 1 or best[0][1] > best[1][1]):
+                g_ = best[0][0]
+                for n in ast.walk(fn):
+                    if isinstance(n, ast.Name) and n.id == a_:
+                        n.id = g_
+                    elif isinstance(n, ast.ExceptHandler) and n.name == a_:
+                        n.name = g_
+                used.add(g_)
+                gone = [x for x in gone if x != g_]
+                notes.append(f"local {a_} -> {g_}")
+    own = _params_of(fn) | _locals_of(fn)
+    sig = {k: v for k, v in signatures.items() if k not in own}
+
+    # -- temporaries the reference does not have
+    new_names = _locals_of(fn) - _locals_of(ref) - _params_of(fn)
+    if new_names:
+        k = _inline_temps(fn, only=new_names)
+        if k:
+            notes.append("hoisted temporaries")
+    # -- if statements: the layout the reference has for the same test
+    fn.body = _shape_blocks(fn.body, ref_ifs, notes)
+    # -- expressions
+    class _E(ast.NodeTransformer):
+        def visit_UnaryOp(self, node: ast.UnaryOp) -> ast.AST:
+            self.generic_visit(node)
+            if isinstance(node.op, ast.Not) and isinstance(node.operand, ast.Compare) and len(node.operand.ops) == 1 and type(node.operand.ops[0]) in _NEG \
+                    and ast.unparse(node) not in {ast.unparse(x) for x in ast.walk(ref) if isinstance(x, ast.UnaryOp)}:
+                o = node.operand
+                return ast.Compare(o.left, [_NEG[type(o.ops[0])]()], o.comparators)
+            return node
+
+        def visit_Compare(self, node: ast.Compare) -> ast.AST:
+            self.generic_visit(node)
+            if len(node.ops) == 1 and ast.unparse(node) not in ref_text:
+                op, l, r = node.ops[0], node.left, node.comparators[0]
+                if isinstance(op, (ast.In, ast.NotIn)) and isinstance(r, (ast.List, ast.Tuple)):
+                    for alt in (ast.Tuple(r.elts, ast.Load()), ast.List(r.elts, ast.Load())):
+                        cand = ast.Compare(l, [op], [alt])
+                        if _u(cand) in ref_text:
+                            notes.append("membership literal")
+                            return cand
+                mir = {ast.Lt: ast.Gt, ast.Gt: ast.Lt, ast.LtE: ast.GtE, ast.GtE: ast.LtE, ast.Eq: ast.Eq, ast.NotEq: ast.NotEq}
+                if type(op) in mir and ((_pure(l) and _pure(r)) or isinstance(l, ast.Constant) or isinstance(r, ast.Constant)):
+                    cand = ast.Compare(r, [mir[type(op)]()], [l])
+                    if _u(cand) in ref_text or (isinstance(l, ast.Constant) and not isinstance(r, ast.Constant)):
+                        # the reference's orientation; for a comparison the reference does not have, the literal goes right as everywhere in it
+                        notes.append("comparison orientation")
+                        return cand
+            return node
+
+        def visit_Assign(self, node: ast.Assign) -> ast.AST:
+            self.generic_visit(node)
+            v = node.value
+            if len(node.targets) == 1 and isinstance(node.targets[0], ast.Name) and isinstance(v, ast.BinOp) and isinstance(v.op, (ast.Add, ast.Sub)) \
+                    and isinstance(v.left, ast.Name) and v.left.id == node.targets[0].id and isinstance(v.right, ast.Constant) and type(v.right.value) is int:
+                cand = ast.AugAssign(ast.Name(v.left.id, ast.Store()), v.op, v.right)
+                if _u(cand) in ref_text and ast.unparse(node) not in ref_text:
+                    notes.append("augmented assignment")
+                    return cand
+            return node
+
+        def visit_AugAssign(self, node: ast.AugAssign) -> ast.AST:
+            self.generic_visit(node)
+            if isinstance(node.target, ast.Name) and isinstance(node.op, (ast.Add, ast.Sub)) and isinstance(node.value, ast.Constant) and type(node.value.value) is int:
+                cand = ast.Assign([ast.Name(node.target.id, ast.Store())], ast.BinOp(ast.Name(node.target.id, ast.Load()), node.op, node.value))
+                if _u(cand) in ref_text and ast.unparse(node) not in ref_text:
+                    notes.append("augmented assignment")
+                    return cand
+            return node
+
+        def visit_Call(self, node: ast.Call) -> ast.AST:
+            self.generic_visit(node)
+            if isinstance(node.func, ast.Name) and node.func.id in sig and node.keywords and not any(isinstance(a, ast.Starred) for a in node.args):
+                params = sig[node.func.id]
+                args, kws = list(node.args), list(node.keywords)
+                while kws and kws[0].arg is not None and len(args) < len(params) and params[len(args)] == kws[0].arg and (node.func.id, kws[0].arg) not in ref_kw:
+                    args.append(kws.pop(0).value)
+                    notes.append("keyword argument")
+                node.args, node.keywords = args, kws
+            return node
+
+    _E().visit(fn)
+
+    ast.fix_missing_locations(fn)
+    return notes
+
+
+def _shape_blocks(block: list[ast.stmt], ref_ifs: dict[str, list[ast.If]], notes: list[str], elif_pos: bool = False) -> list[ast.stmt]:
+    """if statements get the layout the reference uses for the same test (unique match by test text): polarity, else vs guard clause"""
+    out: list[ast.stmt] = []
+    i = 0
+    while i < len(block):
+        st = block[i]
+        for f in ("body", "orelse", "finalbody"):
+            v = getattr(st, f, None)
+            if isinstance(v, list) and v and isinstance(v[0], ast.stmt):
+                setattr(st, f, _shape_blocks(v, ref_ifs, notes, elif_pos=isinstance(st, ast.If) and f == "orelse" and len(v) == 1 and isinstance(v[0], ast.If)))
+        if isinstance(st, ast.Try):
+            for h in st.handlers:
+                h.body = _shape_blocks(h.body, ref_ifs, notes)
+        if isinstance(st, ast.If):
+            # if a: (if b: X)  <->  if a and b: X, whichever the reference has
+            if not st.orelse and len(st.body) == 1 and isinstance(st.body[0], ast.If) and not st.body[0].orelse and ast.unparse(st.test) not in ref_ifs:
+                both = ast.BoolOp(ast.And(), [st.test, st.body[0].test])
+                if _u(both) in ref_ifs:
+                    st.test, st.body = both, st.body[0].body
+                    notes.append("nested if -> and")
+            elif not st.orelse and isinstance(st.test, ast.BoolOp) and isinstance(st.test.op, ast.And) and len(st.test.values) == 2 and ast.unparse(st.test) not in ref_ifs:
+                a_, b_ = st.test.values
+                outer = ref_ifs.get(ast.unparse(a_), [])
+                if len(outer) == 1 and not outer[0].orelse and len(outer[0].body) == 1 and isinstance(outer[0].body[0], ast.If) and not outer[0].body[0].orelse \
+                        and ast.unparse(outer[0].body[0].test) == ast.unparse(b_):
+                    st.test, st.body = a_, [ast.If(b_, st.body, [])]
+                    notes.append("and -> nested if")
+            t, tn = ast.unparse(st.test), _u(negate(st.test))
+            if t not in ref_ifs and tn not in ref_ifs and st.orelse and isinstance(st.test, ast.UnaryOp) and isinstance(st.test.op, ast.Not):
+                # a test the reference does not have at all (the change itself): positive polarity, as everywhere in the reference
+                st.test, st.body, st.orelse = negate(st.test), st.orelse, st.body
+                notes.append("if/else polarity")
+                t, tn = tn, t
+            if t not in ref_ifs and len(ref_ifs.get(tn, [])) == 1:
+                if st.orelse:
+                    st.test, st.body, st.orelse = negate(st.test), st.orelse, st.body
+                    notes.append("if/else polarity")
+                    t = tn
+                elif _terminates(st.body) and block[i + 1:] and _terminates(block[i + 1:]):
+                    # if <not c>: A(term); rest(term)   ==   if c: rest(term); A(term)
+                    a_body = st.body
+                    st.test, st.body = negate(st.test), _shape_blocks(block[i + 1:], ref_ifs, notes)
+                    notes.append("guard polarity")
+                    block = block[:i] + [st] + a_body
+                    t = tn
+            if t not in ref_ifs and tn not in ref_ifs and st.orelse and _terminates(st.body) and not elif_pos and not (len(st.orelse) == 1 and isinstance(st.orelse[0], ast.If)):
+                # a new early exit with the rest of the block under `else` (not an arm of an if/elif chain): the guard-clause layout, so that
+                # what follows stays at the nesting level the reference has it
+                rest, st.orelse = st.orelse, []
+                out.append(st)
+                block = block[:i + 1] + rest + block[i + 1:]
+                notes.append("new if/else -> guard clause")
+                i += 1
+                continue
+            if len(ref_ifs.get(t, [])) == 1:
+                r = ref_ifs[t][0]
+                if r.orelse and not st.orelse and _terminates(st.body) and len(block) - i - 1 >= len(r.orelse) \
+                        and [type(x) for x in block[i + 1:i + 1 + len(r.orelse)]] == [type(x) for x in r.orelse]:
+                    # as many of the following statements as the reference keeps under its else, when they are statements of the same kinds
+                    # (any number is equivalent: the body leaves)
+                    k = len(r.orelse)
+                    st.orelse = _shape_blocks(block[i + 1:i + 1 + k], ref_ifs, notes, elif_pos=k == 1 and isinstance(block[i + 1], ast.If))
+                    out.append(st)
+                    notes.append("guard clause -> if/else")
+                    block = block[:i + 1] + block[i + 1 + k:]
+                    i += 1
+                    continue
+                if not r.orelse and st.orelse and _terminates(st.body):
+                    rest, st.orelse = st.orelse, []
+                    out.append(st)
+                    out.extend(rest)
+                    notes.append("if/else -> guard clause")
+                    i += 1
+                    continue
+        out.append(st)
+        i += 1
+    return out
